@@ -111,6 +111,17 @@ def check(ctx):
         # ---- R2 (slice only) -------------------------------------------------------------
         if mname == "slice":
             key = [p for p in params(fn) if p != "self"][0]
+            rekeys = [n for n in walk_no_nested(fn) if isinstance(n, (ast.Assign, ast.AugAssign)) and
+                      any(dotted(t) == key for t in (n.targets if isinstance(n, ast.Assign) else [n.target]))]
+            for n in rekeys:
+                v = n.value if isinstance(n, ast.Assign) else None
+                ident = isinstance(v, ast.Call) and call_name(v) in ("np.asarray", "np.array", "np.asanyarray") and len(v.args) == 1 \
+                    and dotted(v.args[0]) == key and not any(k.arg in ("dtype",) for k in v.keywords)
+                ctx.decide(ident, "C03-R2", n, TRAJ, q, "key reaches the subscripts unmodified", "identity-preserving conversion",
+                           "`%s` changes the meaning of the key before it is applied (a list of booleans is a mask for numpy but becomes "
+                           "the indices 0/1 after dtype coercion): t[key] no longer equals numpy indexing" % src(n))
+            if not rekeys:
+                ctx.holds("C03-R2", fn, TRAJ, q, "key reaches the subscripts unmodified", "key is never reassigned")
             ai2 = AbsInterp(cfg, _self_root)
             for site in sites:
                 node = cfg.node_containing(site)
@@ -287,10 +298,15 @@ def _r3(ctx, mod, methods):
                 ctx.holds("C03-R3", st, TRAJ, q, what, "every path to the normal exit resets the cache")
     # xyz setter itself must reset
     setter = ctx.py.func(TRAJ, "Trajectory.xyz.setter")
-    ok = any(isinstance(n, ast.Assign) and any(dotted(t) == "self._rmsd_traces" for t in n.targets)
-             and isinstance(n.value, ast.Constant) and n.value.value is None for n in walk_no_nested(setter))
-    ctx.decide(ok, "C03-R3", setter, TRAJ, "Trajectory.xyz.setter", "setter resets cache",
-               "self._rmsd_traces = None", "the xyz setter no longer clears self._rmsd_traces")
+    scfg = CFG(setter)
+    resets = {n for n in scfg.nodes() if scfg.kind[n] == "stmt" and isinstance(scfg.stmt[n], ast.Assign)
+              and any(dotted(t) == "self._rmsd_traces" for t in scfg.stmt[n].targets)
+              and isinstance(scfg.stmt[n].value, ast.Constant) and scfg.stmt[n].value.value is None}
+    ok = bool(resets) and scfg.exit not in scfg.reachable(scfg.entry, removed=resets)
+    ctx.decide(ok, "C03-R3", setter, TRAJ, "Trajectory.xyz.setter", "setter resets cache on every path",
+               "every normal exit of the setter passes self._rmsd_traces = None",
+               "the xyz setter can return without clearing self._rmsd_traces (e.g. an early return): `t.xyz *= s` mutates the array in place "
+               "and then re-assigns the same object, so the cached traces stay stale")
 
 
 # ---------------------------------------------------------------------------------------------
@@ -336,6 +352,28 @@ def _r4(ctx, mod):
         ctx.decide(ok, "C03-R4", first[1], TRAJ, q, "%s raise dominates concatenation" % what,
                    "every path to np.concatenate passes the %s check" % what,
                    "np.concatenate is reachable without passing the %s check" % what)
+    # every per-frame argument of the constructor originates from the concatenation on every path
+    # (time: always; unit cell: None only when self has no unit cell)
+    init = ctx.py.func(TRAJ, "Trajectory.__init__")
+    init_params = [p for p in params(init) if p != "self"]
+    ai = AbsInterp(cfg, _self_root)
+    for site in [n for n in walk_no_nested(fn) if isinstance(n, ast.Call) and _is_ctor(n)]:
+        node = cfg.node_containing(site)
+        am = _argmap(site, init_params)
+        for field in ("xyz", "time", "unitcell_lengths", "unitcell_angles"):
+            e = am.get(field)
+            bad = None
+            for st in ai.states_at(node):
+                tags, orig = ai.value(e, st) if e is not None else (set(), {"const:None"})
+                none_ok = field.startswith("unitcell") and st.get(("true", "self._have_unitcell")) is False
+                for o in orig:
+                    if o == "const:None" and not none_ok:
+                        bad = st
+                    elif o != "const:None" and not o.startswith("f("):
+                        bad = st
+            ctx.decide(bad is None, "C03-R4", site, TRAJ, q, "%s of the result is the concatenation on every path" % field, "",
+                       "on some path (%s) the joined trajectory's %s is not the concatenation of the inputs' %s (e.g. None -> default "
+                       "arange): times assigned to the pieces are lost" % (_fmt_state(bad) if bad else "", field, field))
     # the result carries deepcopy of the topology and the concatenated arrays: R1.
     fn = ctx.py.func(TRAJ, "Trajectory.stack")
     q = "Trajectory.stack"
